@@ -212,3 +212,11 @@ package mysql
 //@   requires forall(j, 0, len(fields), fields[j] != nil)
 //@   loop 0 invariant 0 <= pos && pos <= len(rowData)
 //@   ensures err != nil ==> out == nil
+
+// COM_STMT_EXECUTE layout: command(1) statement id(4) flags(1) iteration count(4) NULL bitmap((n+7)/8) new-params-bound flag(1),
+// then two type bytes per parameter — the same layout GetBindParameters reads.
+//@ func (packet *Packet) SetParameters(values []base.BoundValue) (err error)
+//@   props C12
+//@   noinline SetData
+//@   requires len(packet.header) == 4
+//@   loop 0 invariant types-follow-the-null-bitmap: pos == 11 + (len(values) + 7) / 8 + 2 * i && 0 <= i
